@@ -89,11 +89,17 @@ theorem size_resize (out : Array UInt8) (n : Nat) : (resize out n).size = n := b
   simp only [resize, Array.size_append, Array.size_extract, Array.size_replicate]
   omega
 
+theorem size_prepare (out : Array UInt8) (n : Nat) : (prepare out n).size = n := by
+  unfold prepare
+  split
+  · exact size_resize out n
+  · exact Array.size_replicate
+
 /-- closed form of the model: byte `j` of the result is `input[j] xor` key-stream byte `j`,
 whatever the output vector held before -/
 theorem applyInto_eq (key nonce input : List UInt8) (c : UInt32) (out0 : List UInt8) :
     applyInto key nonce input c out0 = input.mapIdx fun j b => b ^^^ ksByte key nonce c j := by
-  have hsz : (resize out0.toArray input.length).size = input.toArray.size := by simp [size_resize]
+  have hsz : (prepare out0.toArray input.length).size = input.toArray.size := by simp [size_prepare]
   obtain ⟨h1, h2⟩ := applyLoop_spec key nonce input.toArray 0 c _ hsz
   apply List.ext_getElem?
   intro j
@@ -103,7 +109,7 @@ theorem applyInto_eq (key nonce input : List UInt8) (c : UInt32) (out0 : List UI
     simp [hj]
   · have hj' : input.length ≤ j := by omega
     have e1 : input[j]? = none := List.getElem?_eq_none hj'
-    have e2 : (applyLoop key nonce input.toArray 0 c (resize out0.toArray input.length))[j]? = none := by
+    have e2 : (applyLoop key nonce input.toArray 0 c (prepare out0.toArray input.length))[j]? = none := by
       apply Array.getElem?_eq_none
       rw [h1]; simpa using hj'
     rw [e1, e2]; rfl
